@@ -153,3 +153,36 @@ Corollary sub_of_is_source H uid salt sector clock :
   (exists d, sub_of (H (PS "sha256")) Public uid salt sector 0 = SHash d /\ public_id_src H (VStr uid) (VStr salt) clock = Ok (VStr d)) /\
   (exists d, sub_of (H (PS "sha256")) Pairwise uid salt sector 0 = SHash d /\ pairwise_id_src H (VStr uid) (VStr sector) (VStr salt) clock = Ok (VStr d)).
 Proof. split; eexists; split; try reflexivity; [apply public_id_refines|apply pairwise_id_refines]. Qed.
+
+(* ------------------------------------------------------------------ the session key, the other direction *)
+(* Database.unpack_branch_key: key.split(DIVIDER) *)
+Theorem unpack_branch_key_refines key clock :
+  unpack_branch_key_src (VStr key) clock = Ok (VList (List.map VStr (unpack_branch_key key))).
+Proof. reflexivity. Qed.
+
+(* ------------------------------------------------------------------ length:value serialisation *)
+Lemma str_of_Z_of_nat n : str_of_Z (Z.of_nat n) = str_of_nat n.
+Proof. destruct n as [|n]; [reflexivity|]. cbn [Z.of_nat str_of_Z]. now rewrite SuccNat2Pos.id_succ. Qed.
+Lemma join_empty l : join [] l = List.concat l.
+Proof.
+  induction l as [|x r IH]; [reflexivity|]. destruct r as [|y r']; [cbn; now rewrite app_nil_r|].
+  change (join [] (x :: y :: r')) with (x ++ [] ++ join [] (y :: r'))%list. rewrite IH. reflexivity.
+Qed.
+(* util.lv_pack (variadic): the loop body is taken as it is found in the translation; by induction over the arguments the
+   list it builds is the list of the model's pack1 of each argument, whatever the body's statement order *)
+Theorem lv_pack_refines args clock :
+  lv_pack_src (VList (List.map VStr args)) clock = Ok (VStr (lv_pack args)).
+Proof.
+  unfold lv_pack_src. cbn -[py_for List.map PS].
+  match goal with |- context [py_for _ ?body (VList [])] =>
+    assert (HL : forall l acc, py_for (List.map VStr l) body (VList (List.map VStr acc))
+                               = Ok (inl (VList (List.map VStr (acc ++ List.map pack1 l)))))
+  end.
+  { clear. induction l as [|a r IH]; intros acc; [cbn; now rewrite app_nil_r|].
+    cbn -[py_for List.map Z.of_nat]. cbn [List.map py_for]. cbn -[py_for List.map Z.of_nat].
+    match goal with |- py_for _ _ (VList (_ ++ [VStr ?X])) = _ =>
+      replace X with (pack1 a) by (unfold pack1; rewrite ?str_of_Z_of_nat, ?app_nil_r; reflexivity) end.
+    change [VStr (pack1 a)] with (List.map VStr [pack1 a]). rewrite <- map_app, IH, <- app_assoc. reflexivity. }
+  change (VList []) with (VList (List.map VStr [])). rewrite HL. cbn -[List.map].
+  rewrite all_strs_map, join_empty. unfold lv_pack. now rewrite flat_map_concat_map.
+Qed.
